@@ -16,8 +16,15 @@ def sh(cmd, **k):
 
 
 def main():
-    names = sys.argv[1:] or sorted(d for d in os.listdir(BEN) if os.path.isdir(os.path.join(BEN, d)))
+    args = [a for a in sys.argv[1:] if not a.startswith("--")]
+    only = [a.split("=", 1)[1].split(",") for a in sys.argv[1:] if a.startswith("--checks=")]
+    skip = [a.split("=", 1)[1].split(",") for a in sys.argv[1:] if a.startswith("--skip=")]
+    names = args or sorted(d for d in os.listdir(BEN) if os.path.isdir(os.path.join(BEN, d)))
     ids = [c["property_id"] for c in json.load(open(os.path.join(ROOT, "MANIFEST.json")))["checks"]]
+    if only:
+        ids = [i for i in ids if i in only[0]]
+    if skip:
+        ids = [i for i in ids if i not in skip[0]]
     results = {}
     rp = os.path.join(BEN, "RESULTS.json")
     if os.path.exists(rp):
@@ -44,7 +51,10 @@ def main():
                 with ThreadPoolExecutor(6) as ex:
                     res = dict(ex.map(run, ids))
                 alarms = [p for p, r in res.items() if r["exit"] != 0]
-                results[name] = {"checks": res, "alarms": alarms}
+                prev = results.get(name, {}).get("checks", {}) if (only or skip) else {}
+                prev.update(res)
+                alarms = [p for p, r in prev.items() if r["exit"] != 0]
+                results[name] = {"checks": prev, "alarms": alarms}
                 print(f"{name:6s} alarms={alarms or 'none'}")
             finally:
                 sh(["git", "-C", repo, "checkout", "--", "."])
